@@ -172,15 +172,12 @@ theorem attrFactsN_of {ft : Feat} {e : BEnv} {Γ : Ctx} {m : XmlMeta} {ci : Clas
 /-- which of the two kinds of element var, with its default -/
 inductive ElemKindN (ft : Feat) (Γ : Ctx) (m : XmlMeta) (var : XmlVar) : Prop
   | prim (t : PT) (hc : var.clazz = none) (hp : primTypeOf var = some t) (ht : var.types = [.prim t])
-      (hd : if var.tokens || var.listElement then
-              var.default = .listFactory ∧ ¬ (var.tokens = true ∧ var.listElement = true ∧ var.nillable = true)
+      (hd : if var.tokens || var.listElement then var.default = .listFactory
             else scalarDefault var.default t = true ∧ (var.nillable = true → var.default = .none))
   | cls (c : ClassId) (m' : XmlMeta) (hc : var.clazz = some c) (htk : var.tokens = false)
       (ht : var.types = [.cls c])
       (hd : if var.listElement then var.default = .listFactory else var.default = .none)
       (hm : metaOf Γ c (targetUri m.qname) = some m')
-      (hns : ∀ k ∈ classesFor ft Γ c, ∀ mk, metaOf Γ k (targetUri m.qname) = some mk →
-        nsAgreeN ft Γ mk var.qname = true)
 
 theorem elemFactsN_of {ft : Feat} {Γ : Ctx} {m : XmlMeta} {ci : ClassInfo} {var : XmlVar}
     (MF : MetaFactsN ft Γ ci m) (hmem : var ∈ m.elementVars)
@@ -239,11 +236,9 @@ theorem elemFactsN_of {ft : Feat} {Γ : Ctx} {m : XmlMeta} {ci : ClassInfo} {var
         refine ElemKindN.prim t hcl hpt htp ?_
         by_cases hb : var.tokens = true ∨ var.listElement = true
         · have hb2 : (var.tokens || var.listElement) = true := by simpa using hb
-          simp only [hb, if_true, Bool.and_eq_true, decide_eq_true_eq, Bool.not_eq_true'] at hkind
+          simp only [hb, if_true, decide_eq_true_eq] at hkind
           simp only [hb2, if_true]
-          refine ⟨hkind.1, ?_⟩
-          rintro ⟨h1, h2, h3⟩
-          simp [h1, h2, h3] at hkind
+          exact hkind
         · have hb2 : (var.tokens || var.listElement) = false := by
             cases h1 : var.tokens <;> cases h2 : var.listElement <;> simp_all
           simp only [hb, if_false, Bool.and_eq_true, Bool.or_eq_true,
@@ -256,50 +251,15 @@ theorem elemFactsN_of {ft : Feat} {Γ : Ctx} {m : XmlMeta} {ci : ClassInfo} {var
     | some c =>
       rw [hcl] at hkind
       simp only [Bool.and_eq_true, decide_eq_true_eq, Bool.not_eq_true'] at hkind
-      obtain ⟨⟨⟨⟨htk, hty⟩, hd⟩, hm⟩, hall⟩ := hkind
+      obtain ⟨⟨⟨htk, hty⟩, hd⟩, hm⟩ := hkind
       cases hm' : metaOf Γ c (targetUri m.qname) with
       | none => simp [hm'] at hm
       | some m' =>
-        refine ElemKindN.cls c m' hcl htk hty ?_ hm' ?_
-        · split at hd <;> simp_all
-        · intro k hk mk hmk
-          have := (List.all_eq_true.1 hall) k hk
-          simpa [hmk] using this
+        refine ElemKindN.cls c m' hcl htk hty ?_ hm'
+        split at hd <;> simp_all
   · intro hn
     rcases hnl with h | h
     · rw [hn] at h; cases h
     · exact h
-
-theorem mem_classesFor_self (ft : Feat) (Γ : Ctx) (c : ClassId) : c ∈ classesFor ft Γ c := by
-  unfold classesFor; split <;> simp
-
-theorem mem_classesFor_sub {ft : Feat} {Γ : Ctx} {c k : ClassId} (hi : ft.inherit = true)
-    {ci : ClassInfo} (hfind : Γ.find k = some ci) (hsub : Γ.isSubclass k c = true) :
-    k ∈ classesFor ft Γ c := by
-  unfold classesFor
-  rw [if_pos hi]
-  by_cases hk : k = c
-  · simp [hk]
-  · refine List.mem_cons_of_mem _ (List.mem_filter.2 ⟨?_, by simp [hk, hsub]⟩)
-    have hmem : ci ∈ Γ.classes := List.mem_of_find?_eq_some hfind
-    exact List.mem_map.2 ⟨ci, hmem, find_id hfind⟩
-
-/-- the generator and the parser look the class `k` of an item of `var` up under different
-namespaces, with the same outcome -/
-theorem nsAgreeN_var {ft : Feat} {Γ : Ctx} {m : XmlMeta} {q : QN} (h : nsAgreeN ft Γ m q = true)
-    {var : XmlVar} (hmem : var ∈ m.elementVars) {c : ClassId} (hcl : var.clazz = some c)
-    {k : ClassId} (hk : k ∈ classesFor ft Γ c) :
-    (metaOf Γ k (targetUri q)).map dropQ = (metaOf Γ k (targetUri m.qname)).map dropQ := by
-  simp only [nsAgreeN, List.all_eq_true] at h
-  have := h var hmem
-  simp only [hcl, List.all_eq_true, decide_eq_true_eq] at this
-  exact this k hk
-
-theorem nsAgreeN_self (ft : Feat) (Γ : Ctx) (m : XmlMeta) : nsAgreeN ft Γ m m.qname = true := by
-  simp only [nsAgreeN, List.all_eq_true]
-  intro w _
-  split
-  · rfl
-  · simp
 
 end Proofs.C01
